@@ -394,6 +394,50 @@ func SubscribeForNewEpoch(contract)
 @*/
 
 /*@
+module tickok
+props C06
+use common core
+dialect neovm
+
+// C06, the "if" direction of "newEpoch(e) succeeds iff ...": with well-formed counters (deployment; see module ring), the
+// Alphabet's witness, a larger epoch below 2^32 and well-formed stored candidates no fault site of this contract is reachable
+// during the tick - what is left are faults inside the subscribers' newEpoch (A1: the whole tick is then reverted).
+// Every callee is inlined (its fault sites must be seen); the loops only have to keep the counters and the subscriber keys.
+// Stored values are assumed to deserialise (A4): a malformed stored candidate is not a modelled fault site.
+pure N(s Store) Int  = b2i(s.get("snapshotCount"))
+pure id(s Store) Int = b2i(s.get("snapshotCurrent"))
+pure C(s Store) Int  = b2i(s.get("snapshotEpoch"))
+pred WF(s Store) = s.has("snapshotCount") && s.has("snapshotCurrent") && s.has("snapshotEpoch")
+                && 1 <= N(s) && N(s) <= 255 && 0 <= id(s) && id(s) < N(s) && 0 <= C(s)
+
+func getNetmapNodes(ctx) (r)
+  inline
+  loop 0
+    invariant !isnil(result) && len(result) >= 0
+func filterNetmap(ctx) (r)
+  inline
+  loop 0
+    invariant !isnil(result) && len(result) >= 0 && !isnil(netmap) && $i <= len(netmap)
+func fillNetmap(ctx, epoch)
+  inline
+  loop 0
+    invariant store.opt("snapshotCount") == entry(store).opt("snapshotCount") && store.opt("snapshotCurrent") == entry(store).opt("snapshotCurrent")
+    invariant samesnap(store, entry(store), "e")
+func dropNetmap(ctx, epoch)
+  inline
+  loop 0
+    invariant samesnap(store, entry(store), "e")
+func cleanup(ctx, epoch)
+  inline
+  loop 0
+    invariant true
+
+func NewEpoch(epochNum)
+  nofault given WF(store) && W(alphabet()) && epochNum > C(store) && epochNum < 4294967296
+        && (forall j Int {skey(store, "e", j)} :: 0 <= j && j < cnt(store, "e") ==> len(skey(store, "e", j)) == 22)
+@*/
+
+/*@
 module be4
 props C06 C08
 dialect neovm
